@@ -259,11 +259,10 @@ def run(ctx):
     hists = [h for h in hists if any(s['op'] != 'eval' for s in h)]
     if not q:
         hists = hists[::3]          # every third depth-4 history (still all depth-3 prefixes are covered on the way)
-    else:
-        # histories that index the parent a second time: every third one in the quick tier
-        re = [h for h in hists if sum(1 for st in h if st['op'] == 'index' and st['obj'] == 'P') >= 2]
-        keep = {id(h) for h in re[::3]}
-        hists = [h for h in hists if sum(1 for st in h if st['op'] == 'index' and st['obj'] == 'P') < 2 or id(h) in keep]
+    # histories that index the parent a second time: every third one of them
+    re = [h for h in hists if sum(1 for st in h if st['op'] == 'index' and st['obj'] == 'P') >= 2]
+    keep = {id(h) for h in re[::3]}
+    hists = [h for h in hists if sum(1 for st in h if st['op'] == 'index' and st['obj'] == 'P') < 2 or id(h) in keep]
     jobs = []
     for h in hists:
         has_extra = any(s['op'] in ('add_extra', 'remove_extra') for s in h)
